@@ -330,6 +330,7 @@ func TestVerif_C13_chan(t *testing.T) {
 	r := s.Rand()
 	cnt := c13Counter{}
 	n := verifh.N(300, 6000)
+	flushTimeouts := 0
 	for c := 0; c < n; c++ {
 		k := r.Intn(8)
 		if r.Intn(3) == 0 {
@@ -365,9 +366,14 @@ func TestVerif_C13_chan(t *testing.T) {
 		if mode == "async" {
 			done := make(chan struct{})
 			d.DumpTo([]byte("x"), c13SignalWriter{done})
+			wait := time.Second
+			if flushTimeouts >= 3 { // delivery is broken: do not spend a second on every case
+				wait = 10 * time.Millisecond
+			}
 			select {
 			case <-done:
-			case <-time.After(5 * time.Second):
+			case <-time.After(wait):
+				flushTimeouts++
 			}
 			d.Stop()
 		} else if mode == "unstarted" {
